@@ -13,7 +13,7 @@ RULE = ('Base documents: fixtures, generated valid documents, documents with 1-4
         'acknowledgement are identical for the original and every re-encoding. non-trivial = distinct (document, encoding) pairs where the document has >=1 error.')
 ASSUMPTIONS = ['message strings and HTML are not compared (they legitimately contain delimiters)', 'source line numbers are compared as segment ordinals, which re-encoding preserves',
                'acknowledgement envelope lines (ISA/GS/ST/SE/GE/IEA, which carry timestamps and generated control numbers) are excluded']
-REQUIRED_COUNTERS = ['bases', 'bases:with-errors', 'bases:valid', 'encodings', 'encodings:control-char-delimiter', 'encodings:eol:', 'encodings:eol:\\r\\n', 'encodings:eol:\\n']
+REQUIRED_COUNTERS = ['bases:longer-than-one-read-buffer', 'bases', 'bases:with-errors', 'bases:valid', 'encodings', 'encodings:control-char-delimiter', 'encodings:eol:', 'encodings:eol:\\r\\n', 'encodings:eol:\\n']
 MIN_CASES = {'quick': 900, 'thorough': 30000}
 WATCHDOG_S = {'quick': 1200, 'thorough': 7200}
 
@@ -114,12 +114,18 @@ def run(ctx):
         cs = rng.choice(['B', 'E'])
         kw = dict(n_st=rng.choice([1, 2]), n_gs=rng.choice([1, 1, 2]), n_isa=rng.choice([1, 1, 1, 2]), charset=cs, rich=rng.random() < 0.5, fill=rng.choice([0.2, 0.5]),
                   opt_prob=rng.choice([0.3, 0.6]), maxrep=1)
+        big = (k % 4 == 3)
+        if big:
+            # several read buffers long: line breaks then meet the 8 KiB boundaries of the reader
+            kw.update(n_st=3, n_gs=2, maxrep=2, opt_prob=0.8, fill=0.5)
         try:
             doc = gen_doc.gen_document(e, rng.randrange(1 << 30), **kw)
         except gen_doc.GenFailed:
             continue
-        if len(doc.recs) > 250:
+        if len(doc.recs) > (2500 if big else 250):
             continue
+        if big:
+            ctx.count('bases:longer-than-one-read-buffer' if len(doc.text()) > 8298 else 'bases:big-requested-but-short')
         kinds = []
         for _ in range(rng.choice([0, 1, 1, 2, 4])):
             f = faults.inject(rng, doc)
